@@ -300,6 +300,39 @@ def stage_oracle(ctx: Ctx, progs):
                                       {'src': src, 'rect': rect, 'got': repr(got_cont), 'deeper': repr(deeper[-1])})
             elif containing and root.loc is not None and tuple(root.loc) != tuple(rect):
                 ctx.violation('find_contains_loc-none', 'find_contains_loc found nothing although nodes contain the rectangle', {'src': src, 'rect': rect, 'n_containing': len(containing)})
+            # the other two settings of allow_exact, and find_loc(): 'top' = the HIGHEST node whose bounding location is exactly the rectangle (else as by default);
+            # False = the deepest container that is not exactly the rectangle
+            try:
+                got_top = root.find_contains_loc(ln, col, eln, ecol, 'top')
+                got_strict = root.find_contains_loc(ln, col, eln, ecol, False)
+                got_fl = {et: root.find_loc(ln, col, eln, ecol, exact_top=et) for et in (False, True)}
+            except Exception as e:
+                ctx.violation('find-raise', 'find_*loc raised', {'src': src, 'rect': rect, 'error': repr(e)})
+                continue
+            if (ln, col) == (eln, ecol):
+                continue        # an empty rectangle: zero-width nodes (an empty argument list) are passed over by the search, as in the default setting above
+            ctx.tick(None, 'find:allow_exact-variants')
+            exact = [f for f in containing if tuple(f.bloc) == tuple(rect)]
+            want_top = exact[0] if exact else got_cont
+            if got_top is not want_top:
+                ctx.violation('find_contains_loc-top', "find_contains_loc(allow_exact='top') did not return the highest node that matches the rectangle exactly (or, without one, the default result)",
+                              {'src': src, 'rect': rect, 'got': repr(got_top), 'want': repr(want_top), 'exact_matches': [repr(x) for x in exact]})
+            strict = [f for f in containing if tuple(f.bloc) != tuple(rect)]
+            if (got_strict is None) != (not strict):
+                ctx.violation('find_contains_loc-strict', 'find_contains_loc(allow_exact=False) finds something iff a node contains the rectangle without being exactly it',
+                              {'src': src, 'rect': rect, 'got': repr(got_strict), 'n_strict_containers': len(strict)})
+            elif got_strict is not None:
+                gl = got_strict.bloc
+                if got_strict not in strict or [f for f in strict if f is not got_strict and is_desc(f, got_strict) and tuple(f.bloc) != tuple(gl) and (f.bloc[2], f.bloc[3]) > (ln, col)]:
+                    ctx.violation('find_contains_loc-strict', 'find_contains_loc(allow_exact=False) did not return the deepest node that contains the rectangle without being exactly it',
+                                  {'src': src, 'rect': rect, 'got': repr(got_strict)})
+            exact_loc = [f for f, l in located if tuple(l) == tuple(rect)]
+            for et in (False, True):
+                if exact_loc and got_cont is not None and tuple(got_cont.loc or ()) == tuple(rect):
+                    want_fl = (exact_loc[0] if et else exact_loc[-1]) if all(is_desc(b_, a_) for a_, b_ in zip(exact_loc, exact_loc[1:])) else None
+                    if want_fl is not None and got_fl[et] is not want_fl:
+                        ctx.violation(f'find_loc|exact_top={et}', 'find_loc() did not return the highest / lowest of the nodes located exactly at the rectangle',
+                                      {'src': src, 'rect': rect, 'got': repr(got_fl[et]), 'want': repr(want_fl)})
 
 
 def parents(f):
@@ -407,6 +440,14 @@ def run(ctx: Ctx):
               "if a:\n    x = '#fff'   \nelse:\n    y = '''\n  # not a comment'''  \t\n", 'for i in j:\n    s = "#"  # real comment  \nwhile k:\n    t = f"{u}#"   \n',
               'def f(a=(1)):\n    @d((2))\n    class C: pass\nasync def g(b):\n    @e(b)\n    async def h(): pass\n', 'try:\n    pass\nexcept E:\n    z = "a#b"    \nfinally:\n    w = 1 # c\n',
               'match v:\n    case 1:\n        q = "#"   \n    case _:\n        r = 2  # c\n', 'with a:\n    pass ;  # semi\nif b: c = "#" ;  \n']
+    # nodes whose span is searched for in the text (arguments, comprehension, withitem, match_case ...) around children that hold the delimiter searched for (':' '=' ',' 'if' ...)
+    progs += ['f = lambda a={1: 2}: a\ng = lambda a=x[1:2], *c: a\nh = lambda a=lambda: 0: a\nk = lambda *, b={"k": (lambda: 1)}, **kw: b\nm = lambda: {1: 2}\n',
+              'x = [i for i in y[1:2] if {1: 2} if (lambda: i) for j in (lambda k=i: k)() if j]\nwith a[1:2] as b, {1: 2}[1] as c: pass\nwith (a if b else c) as d, e: pass\n',
+              'match v:\n    case {1: a} if {2: 3}[2]: pass\n    case [b] if (lambda: b)(): pass\n    case C(x=1) | D(y={"k": 2}): z = {1: 2}; w = 3\n',
+              'def f(a: {1: 2} = {3: 4}, *b: (lambda: 0), c=d[1:2], **e: "s:t") -> {5: 6}: pass\nclass K(B[1:2], m={1: 2}): x: {1: 2} = {3: 4}\n',
+              'f(a=b == c, d=(e := 1), *g[1:2], **{1: 2})\nx = {**{1: 2}, 3: {4: 5}, **a[1:2]}\ny = a if (b if c else d) else e\n',
+              'import a.b as c, d as e\nfrom . import (f as g, h)\ntry: pass\nexcept (A, B) as e: x = {1: 2}\nexcept* C: pass\n' if False else 'import a.b as c, d as e\nfrom . import (f as g, h)\ntry: pass\nexcept (A, B) as e: x = {1: 2}\n',
+              'x = f"{a:{b}} {c!r:>{d}} {e[1:2]} { {1: 2}[1] }"\ny = [*a, *b[1:2]]\ndel a[1:2], b\nz = a[1:2, ::3, b:c]\n']
     run_guarded(ctx, stage_oracle, progs)
     run_guarded(ctx, stage_find_model, progs)
 
